@@ -36,7 +36,11 @@ def gen_world(rng):
     if fmt == "zips" and fn == "image_folder":
         # class-wise zips: paths inside the zip are images of that class
         files = [[os.path.basename(p), s, b] for p, s, b in files]
-    w = dict(fn=fn, fmt=fmt, relative=rng.choice([None, "ds", "sub/ds"]), num_workers=rng.choice([0, 0, 1, 2, 3]),
+    rel = rng.choice([None, "ds", "sub/ds"])
+    rel_arg = rel
+    if fn == "image_folder" and fmt == "zip" and rel is not None and rng.random() < 0.5:
+        rel_arg = rel + ".zip"  # the image-folder variant accepts the zip's own name as relative path
+    w = dict(fn=fn, fmt=fmt, relative=rel, relative_arg=rel_arg, num_workers=rng.choice([0, 0, 1, 2, 3]),
              dst_initial=rng.choice(["absent", "absent", "absent", "parent", "empty", "content"]), files=files,
              empty_dirs=(["emp"] if fmt == "raw" and rng.random() < 0.3 else []),
              n_zips=rng.randint(1, 4) if fmt != "zips" else rng.randint(1, 6), readme=rng.random() < 0.4)
@@ -151,7 +155,7 @@ def call_fn(w):
     from kappadata.copying.image_folder import copy_imagefolder_from_global_to_local
     fn = copy_folder_from_global_to_local if w["fn"] == "folder" else copy_imagefolder_from_global_to_local
     gp, lp, src, dst = paths(w)
-    return lambda: fn(gp, lp, relative_path=w["relative"], num_workers=w["num_workers"])
+    return lambda: fn(gp, lp, relative_path=w.get("relative_arg", w["relative"]), num_workers=w["num_workers"])
 
 
 # ----------------------------------------------------------------------------------------------
@@ -328,7 +332,9 @@ class Spec(core.PropSpec):
                 yield dict(world=w, mode="sequence", list_seed=plan["list_seed"], sched_seed=plan["sched_seed"],
                            attempts=[f], clean_calls=2)
         if w["relative"] is not None:
-            yield core._set(plan, ["world", "relative"], None)
+            q = core._set(plan, ["world", "relative"], None)
+            q["world"]["relative_arg"] = None
+            yield q
         if w["num_workers"]:
             yield core._set(plan, ["world", "num_workers"], 0)
         if w["dst_initial"] != "absent":
